@@ -699,3 +699,194 @@ def check_take_step(R, drv, tier):
     R.sample({"kernel": "K-take-step", "exits": len(exits), "property": "for an ARBITRARY accumulated range (bounds >= 1) and next take r: position p survives the new accumulated range  <=>  it survives the old one and p - start + 1 survives r; the invariant (bounds >= 1) is preserved",
               "covers": "any number of consecutive takes by induction (base case and LIMIT/OFFSET tail: K-take k=1)", "wall_s": round(time.time() - t0, 2)})
     core.log(f"[K-take-step] {len(exits)} exits in {time.time()-t0:.1f}s")
+
+
+def check_id(R, drv, tier):
+    """K-id: IdGenerator::skip / gen on ids loaded from an RQ document never overflow"""
+    t0 = time.time()
+    try:
+        res, nxt, idv = kernels.k_id()
+    except Inconclusive as e:
+        R.engine_error(f"K-id: {e}")
+        return
+    base = drv.compile("from t\nselect {a}\n", "sql.sqlite", want_rq=True)
+    for label, (I, exits) in res.items():
+        _account(R, I, "K-id")
+        if not any(e.kind == "return" for e in exits):
+            R.engine_error(f"K-id/{label}: vacuous")
+        for e in exits:
+            if e.kind != "panic":
+                continue
+            v, model, dt = check(e.pc, z3.BoolVal(True))
+            R.q(v, dt)
+            if v != "sat":
+                continue
+            # replay: an RQ document whose column id is the model's value (skip) or one less than the value at which gen overflows
+            if label == "skip":
+                big = model.eval(idv, model_completion=True).as_long()
+            else:
+                big = model.eval(nxt, model_completion=True).as_long() - 1
+            import copy as _copy
+            rq = _copy.deepcopy(base["rq"])
+
+            def walk(x):
+                if isinstance(x, dict):
+                    return {k: walk(v_) for k, v_ in x.items()}
+                if isinstance(x, list):
+                    return [walk(v_) for v_ in x]
+                if isinstance(x, int) and not isinstance(x, bool) and x == 0:
+                    return big
+                return x
+            rq["relation"] = walk(rq["relation"])
+            r = drv.req(op="rq_to_sql", rq=rq, target="sql.sqlite")
+            if r.get("panic") and "id_gen.rs" in r["panic"]:
+                R.violation({"engine": "mirsym", "kernel": "K-id", "kind": "panic", "fn": label, "msg": r["panic"].split(" @ ")[0]},
+                            f"K-id: an RQ document with column id {big} panics in IdGenerator::{label}: {r['panic']}", {"rq": rq, "id": big, "entry": "json::to_rq + rq_to_sql"})
+            elif label == "skip":
+                R.engine_error(f"K-id/{label}: panic exit with id {big} does not panic natively in id_gen.rs: {r.get('panic') or r.get('sql') or r.get('errors')}")
+            else:
+                # `gen` is explored from an arbitrary generator state (a superset of the reachable ones); the document tried
+                # here does not drive the real generator into it
+                R.cov.setdefault("kernel_states_not_reached_by_replay", []).append(f"IdGenerator::gen with next_id = usize::MAX (document tried: column id {big}; outcome: {(r.get('panic') or r.get('sql') or str(r.get('errors')))[:120]})")
+    R.sample({"kernel": "K-id", "property": "no overflow exit of IdGenerator::skip(id) / gen() for any 64-bit id and generator state", "wall_s": round(time.time() - t0, 2)})
+
+
+def check_fold(R, drv, tier, want=("spec", "panic")):
+    """K-fold: static_eval_rq_operator folds exactly the documented cases and never panics"""
+    t0 = time.time()
+    try:
+        I, exits, v = kernels.k_fold()
+    except Inconclusive as e:
+        R.engine_error(f"K-fold: {e}")
+        return
+    _account(R, I, "K-fold")
+    from models import is_variant
+    EK, LV = VARIANTS["ExprKind"], VARIANTS["Literal"]
+    name = v["name"]
+    bv = lambda n: z3.BitVec(n, 64)
+
+    def islit(tag, variant=None):
+        c = bv(f"{tag}_kind") == EK.index("Literal")
+        if variant:
+            c = z3.And(c, bv(f"{tag}_lit") == LV.index(variant))
+        return c
+    i0, i1 = bv("a0_int"), bv("a1_int")
+    b0, b1 = z3.Bool("a0_bool"), z3.Bool("a1_bool")
+    same_variant = z3.And(islit("a0"), islit("a1"), bv("a0_lit") == bv("a1_lit"))
+    lits_equal = z3.If(bv("a0_lit") == LV.index("Null"), z3.BoolVal(True), z3.If(bv("a0_lit") == LV.index("Integer"), i0 == i1,
+                                                                                  z3.If(bv("a0_lit") == LV.index("Boolean"), b0 == b1, v["str_eq"])))
+    N = lambda s: name == z3.StringVal(s)
+    rets = [e for e in exits if e.kind == "return"]
+    panics = [e for e in exits if e.kind == "panic"]
+    if not rets:
+        R.engine_error("K-fold: vacuous")
+    for e in rets:
+        if "spec" not in want:
+            break
+        res = e.value
+        kind = res.f[0]
+        kd = z3.BitVecVal(kind.disc, 64) if isinstance(kind.disc, int) else kind.disc
+        L = EK.index("Literal")
+
+        def res_is_lit(variant, val=None):
+            if L not in kind.pay or 0 not in kind.pay[L]:
+                return z3.BoolVal(False)
+            l = kind.pay[L][0]
+            if not isinstance(l, SEnum):
+                return z3.BoolVal(False)
+            c = z3.And(kd == L, is_variant(l, LV.index(variant)))
+            if val is not None:
+                pv = l.pay.get(LV.index(variant), {}).get(0)
+                if pv is None:
+                    return z3.BoolVal(False)
+                c = z3.And(c, pv.t == val)
+            return c
+        # unchanged: still the operator node with the same name and the same two arguments
+        rqk = EK.index("RqOperator")
+        unchanged = z3.BoolVal(False)
+        if rqk in kind.pay and isinstance(kind.pay[rqk].get(1), SVec):
+            args = kind.pay[rqk][1].items
+            unchanged = z3.And(kd == rqk, z3.BoolVal(len(args) == 2 and args[0] is v["a0"] and args[1] is v["a1"]))
+        returns_arg1 = z3.BoolVal(res is v["a1"])
+        spec = z3.If(z3.And(N("std.not"), islit("a0", "Boolean")), res_is_lit("Boolean", z3.Not(b0)),
+               z3.If(z3.And(N("std.neg"), islit("a0", "Integer")),
+                     z3.If(i0 == z3.BitVecVal(-(1 << 63), 64), unchanged, res_is_lit("Integer", -i0)),      # i64::MIN has no negation
+               z3.If(z3.And(N("std.neg"), islit("a0", "Float")), res_is_lit("Float"),
+               z3.If(z3.And(N("std.eq"), same_variant), res_is_lit("Boolean", lits_equal),
+               z3.If(z3.And(N("std.ne"), same_variant), res_is_lit("Boolean", z3.Not(lits_equal)),
+               z3.If(z3.And(N("std.and"), islit("a0", "Boolean"), islit("a1", "Boolean")), res_is_lit("Boolean", z3.And(b0, b1)),
+               z3.If(z3.And(N("std.or"), islit("a0", "Boolean"), islit("a1", "Boolean")), res_is_lit("Boolean", z3.Or(b0, b1)),
+               z3.If(z3.And(N("std.coalesce"), islit("a0", "Null")), returns_arg1, unchanged))))))))
+        vd, model, dt = check(e.pc, z3.Not(spec), timeout_ms=60000)
+        R.q(vd, dt)
+        if vd == "unknown":
+            R.engine_error("K-fold: unknown")
+        elif vd == "sat":
+            nm = model.eval(name, model_completion=True).as_string()
+
+            def lit_txt(tag):
+                if model.eval(bv(f"{tag}_kind"), model_completion=True).as_long() != EK.index("Literal"):
+                    return "a"
+                d = model.eval(bv(f"{tag}_lit"), model_completion=True).as_long()
+                if LV[d] == "Null":
+                    return "null"
+                if LV[d] == "Integer":
+                    n = bv_to_py(model, bv(f"{tag}_int"))
+                    return str(n) if n >= 0 else f"({n})"
+                if LV[d] == "Boolean":
+                    return "true" if z3.is_true(model.eval(z3.Bool(f"{tag}_bool"), model_completion=True)) else "false"
+                return '"s"'
+            ops = {"std.not": "!{0}", "std.neg": "-{0}", "std.eq": "{0} == {1}", "std.ne": "{0} != {1}", "std.and": "{0} && {1}", "std.or": "{0} || {1}", "std.coalesce": "{0} ?? {1}"}
+            if nm not in ops:
+                R.engine_error(f"K-fold: model with operator {nm!r} violates the spec but cannot be written in PRQL")
+                continue
+            etxt = ops[nm].format(lit_txt("a0"), lit_txt("a1"))
+            # native replay: the folded program and a variant in which the literals come from a relation literal must agree
+            prog = f"from t\nselect {{v = ({etxt}), a}}\n"
+            r = drv.compile(prog, "sql.sqlite")
+            import sqlite3 as _sq
+            ok_native = None
+            if r.get("ok"):
+                con = _sq.connect(":memory:")
+                con.execute("create table t(a)")
+                con.execute("insert into t values (1)")
+                try:
+                    got = con.execute(r["sql"]).fetchall()[0][0]
+                    lit_sql = {"null": "NULL", "true": "1", "false": "0"}
+                    sq = lambda x: lit_sql.get(x, x.strip("()") if x.startswith("(") else x)
+                    sqlop = {"std.not": "NOT {0}", "std.neg": "-({0})", "std.eq": "{0} IS {1}", "std.ne": "{0} IS NOT {1}", "std.and": "{0} AND {1}", "std.or": "{0} OR {1}", "std.coalesce": "COALESCE({0}, {1})"}
+                    want_v = con.execute("select " + sqlop[nm].format(sq(lit_txt("a0")), sq(lit_txt("a1"))) + " from t").fetchall()[0][0]
+                    ok_native = (got == want_v) or (got is not None and want_v is not None and float(got) == float(want_v))
+                except _sq.Error as ex:
+                    ok_native = False
+                    got, want_v = str(ex), None
+                con.close()
+            if ok_native is False:
+                R.violation({"engine": "mirsym", "kernel": "K-fold", "kind": "fold", "op": nm}, f"K-fold: {etxt} is folded to a different value: compiled {r.get('sql')!r} yields {got!r}, the unfolded meaning is {want_v!r}",
+                            {"prql": prog, "sql": r.get("sql"), "features": ["target:sql.sqlite"]})
+            else:
+                R.engine_error(f"K-fold: model {etxt} violates the folding spec but does not reproduce natively ({r.get('sql') or r.get('errors')})")
+    if "panic" in want:
+        for e in panics:
+            vd, model, dt = check(e.pc, z3.BoolVal(True))
+            R.q(vd, dt)
+            if vd == "sat":
+                n = bv_to_py(model, bv("a0_int"))
+                # a literal this small cannot be written in source (the lexer reads 9223372036854775808 as a float);
+                # a PL JSON document can carry it: staged API json::to_pl + pl_to_rq
+                import json as _json
+                pl = drv.req(op="pl_raw", prql="from t\nselect {v = -5}\n")
+                txt = _json.dumps(pl.get("pl"))
+                if '"Integer": 5' not in txt:
+                    R.engine_error("K-fold: PL template for the replay has changed shape")
+                    continue
+                doc = _json.loads(txt.replace('"Integer": 5', f'"Integer": {n}'))
+                r = drv.req(op="pl_json_to_rq", pl=doc)
+                if r.get("panic"):
+                    R.violation({"engine": "mirsym", "kernel": "K-fold", "kind": "panic", "msg": r["panic"].split(" @ ")[0]},
+                                f"K-fold: a PL document with -({n}) panics in constant folding: {r['panic']}", {"pl": doc, "entry": "json::to_pl + pl_to_rq", "value": n})
+                else:
+                    R.engine_error(f"K-fold: panic exit '{e.msg}' with literal {n} does not panic natively: {str(r)[:200]}")
+    R.sample({"kernel": "K-fold", "exits": len(exits), "property": "static_eval_rq_operator returns the folded literal exactly in the documented cases (not/neg/eq/ne/and/or on literals of equal kind, null ?? x) and the unchanged operator otherwise, for every operator name (z3 string), every i64 and bool",
+              "wall_s": round(time.time() - t0, 2)})
+    core.log(f"[K-fold] {len(exits)} exits in {time.time()-t0:.1f}s")
